@@ -404,11 +404,18 @@ func (w *fpWalker) escape(e ast.Expr) {
 	}
 	t := v.Type()
 	if !addr {
-		pt, ok := t.Underlying().(*types.Pointer)
-		if !ok {
+		switch u := t.Underlying().(type) {
+		case *types.Map, *types.Slice:
+			// a map or slice held in a package-level variable, returned as it is: every caller gets the same backing store
+			guard, gid := w.ctxGuard(e.Pos())
+			a, b := fpGname(v)
+			w.add(e.Pos(), "LGlobal", a, b, "W", guard, gid, "returned by reference (shared map/slice handed to the caller) "+types.ExprString(e))
+			return
+		case *types.Pointer:
+			t = u.Elem()
+		default:
 			return
 		}
-		t = pt.Elem()
 	}
 	st, ok := t.Underlying().(*types.Struct)
 	if !ok {
